@@ -1,9 +1,9 @@
 package main
 
 import (
-	"hash/fnv"
 	"bufio"
 	"fmt"
+	"hash/fnv"
 	"os"
 	"regexp"
 	"strconv"
